@@ -12,7 +12,8 @@ def plan(tier, seed):
            "api.paths_to_cats", "api._path_to_cats", "util._strip_path_tail", "util.val_to_num", "util.val_from_meta",
            "core.read_row_group (partition lines)"]
     jobs = [ch("C08", F, h, t, fun, env=dict(VERIF_SLEN=sl)) for h in
-            ("h_hive_str", "h_hive_str_rest", "h_hive_int", "h_hive_bool_and_two_columns", "h_drill_str")]
+            ("h_hive_str", "h_hive_str_rest", "h_hive_int", "h_hive_bool_and_two_columns", "h_drill_str",
+             "h_timestamp_text")]
     extra = dict(
         explanation="Write side (real partition_on_columns -> path_string / join_path) and read side (real "
                     "paths_to_cats, _path_to_cats, val_to_num/val_from_meta and the partition lines of "
